@@ -100,6 +100,11 @@ CHECKS = {
          "For generated histories with pruning, rebroadcast and reorganisations the clean restart must reproduce tip and in-window spendable set; for every enumerated crash point the restarted node must come up without panicking on a tip whose file was completely on disk, with index/flags describing the tip's ancestors, the in-window spendable set equal to the independent replay of that chain, supply conserved when the whole window is held, and must accept a valid next block.",
          "The tearing model (prefix of the new content under the final name; removal atomic) is an assumption taken from RustIOHandler::write_value; the native handler is not executed. Quick tier strides over journal prefixes outside reorganisation/pruning steps; thorough tier takes every prefix. Histories avoid side chains whose fork point has been purged (known finding F10).",
          "DESIGN.md §3 C12"),
+ "C20": ("exploration",
+         "lockdep-style invariant checking over observed acquisition histories: generated handler-event sequences are replayed once per probed lock and probing mode; the harness holds the lock, polls the real handler future once and reads the handler's held-set from outside with try_read/try_write (no source hook)",
+         "For the canonical node life cycle and generated permutations of 23 kinds of steps covering every handler entry point of the routing, verification, consensus and mining threads (29 distinct handlers observed), every first contended acquisition of each of the five shared locks is recorded together with the set of locks the handler holds at that moment and checked against the documented rank order (config < blockchain < mempool < peers < wallet) with the outer-lock exemption; a handler that cannot progress after release is reported as re-entrancy hazard.",
+         "Scope: handler entry points of saito-core only; saito-rust main/network_controller, saito-spammer and the saito-wasm entry points are not driven (they need sockets / a JS host) and are listed as undriven_sites in the evidence. Only the first acquisition of the probed lock that has to wait is observable per handler invocation and probing mode (a second acquisition of a lock the handler already took and released is not seen).",
+         "DESIGN.md §3 C20"),
 }
 NOT_YET = {}
 
